@@ -166,6 +166,10 @@ def channel_kind(ctx, site):
 CALLBACK_SAFE_GETTERS = ("get_state", "get_metrics")
 
 
+REDUCER_END_WAITS_ = {"std::sync::Condvar::wait", "std::sync::Condvar::wait_while", "std::sync::Condvar::wait_timeout", "std::sync::Condvar::wait_timeout_while",
+                      "std::sync::mpsc::Receiver::recv", "std::sync::mpsc::Receiver::recv_timeout"}
+
+
 class RoleAnalysis:
     def __init__(self, ctx, strict=False):
         self.ctx = ctx
@@ -178,7 +182,18 @@ class RoleAnalysis:
         self.graphs = 0
         self.nodes = 0
         self.incomplete = []
+        self.reducer_end_waits = set()
+        self._res = None
         self._run()
+
+    def _reducer_end_signal(self):
+        if self._res is None:
+            from rules.effects import _reducer_thread_signals_its_end
+            try:
+                self._res = bool(_reducer_thread_signals_its_end(self.ctx))
+            except Exception:
+                self._res = False
+        return self._res
 
     def _held(self, G, k):
         ctx = self.ctx
@@ -274,6 +289,16 @@ class RoleAnalysis:
                     elif s.ck in POOL_JOIN:
                         H = self._held(G, k)
                         self.blocking.append({"op": "pooljoin", "chan": "pool", "waker": "RP", "held": H, "site": s, "root": root, "role": role})
+                    elif s.ck in REDUCER_END_WAITS_ and role != "R" and self._reducer_end_signal():
+                        # a wait that the reducer thread ends when its closure returns (it owns the
+                        # sender half / its Drop guard notifies): like a join of that thread
+                        H = set(self._held(G, k))
+                        if "Condvar" in s.ck:
+                            moved = {a["place"]["l"] for a in s.term["args"] if a["k"] == "move" and not a["place"]["p"]}
+                            H -= {h[0] for h in ctx.lr(n.body).holders_at(n.bb, "term") if h[1] in moved}
+                        # the mutex that only wraps the waited-on receiver is not a store lock the reducer takes
+                        self.reducer_end_waits.add(s.key())
+                        self.blocking.append({"op": "pooljoin", "chan": "reducer-end", "waker": "RP", "held": H, "site": s, "root": root, "role": role})
 
 
 def _ra(ctx, strict=False):
@@ -573,6 +598,9 @@ def l3_no_waiting_under_a_lock(ctx, rep):
     # the wait-for rules models (who signals? on every path? also after a dropped action?): for
     # deadlock freedom it is reported as not decided (fail closed), like an unknown channel in L2
     cw = [s for s in ctx.prog.sites() if (s.ck in WAITS and ("Condvar" in s.ck or "park" in s.ck or "Barrier" in s.ck)) or s.ck in UNMODELLED_CHANNEL_WAITS]
+    # waits for the end of the reducer thread are modelled by L2 like a join of that thread
+    modelled = _ra(ctx, True).reducer_end_waits | _ra(ctx).reducer_end_waits
+    cw = [s for s in cw if s.key() not in modelled]
     rep.check(not cw, R, "no-unmodelled-blocking-wait", cw[0].where if cw else "", "the library blocks only on its channels, locks and joins (all modelled by L1/L2)",
               "blocking wait(s) %s: the wake-up condition is not modelled by any rule, so absence of a lost wake-up / never-satisfied condition is not decided" % sorted({"%s:%s" % (short(x.body.path), x.ck.split("::")[-1]) for x in cw}))
     # the reducer thread waits for nothing but its queue (and the channels of its subscribers):
